@@ -88,7 +88,7 @@ def run(P, rep, tier):
                          'specification grammar transcribed from section-format.rst / the property statement']
     R = ReaderRoles(P)
     rep.analysed(*R.funcs)
-    H = ReaderHarness(P, R, havoc=True, unknown_iters=(0, 1, 2))
+    H = ReaderHarness(P, R, havoc=True, unknown_iters=(0, 1, 2) if tier == 'quick' else (0, 1, 2, 3))
     paths, exceeded = H.paths([Script('diffx', options='unknown')])
     if exceeded:
         raise AnalysisError('path budget exceeded on the header function')
